@@ -14,8 +14,8 @@ INVARIANTS = ["PosCounts", "BlockAligned", "UnitsSane", "OutIsEncode", "OutIsPre
               "EpsRoundTrip", "BorrowsInPlace", "RowsWithin", "RowsPreorder", "RowsAligned", "PaddingZero",
               "SchemaTiles", "SchemaTopTiles"]
 
-FIXED = {"UsizeBytes": 8, "ZstUnit": 1, "BugSliceFree": False, "BugCFlowTags": False, "BugOptTag": False,
-         "BugArray0": False, "BugZstSlice": False, "SinkGrain": "call", "SinkFaulty": False, "MaxFaults": 0,
+FIXED = {"UsizeBytes": 8, "ZstUnit": 1, "TupleRangeConstTrue": False, "BugSliceFree": False, "BugCFlowTags": False, "BugOptTag": False,
+         "BugArray0": False, "BugZstSlice": False, "BugZstNoAlign": False, "SinkGrain": "call", "SinkFaulty": False, "MaxFaults": 0,
          "ReaderGrain": "call", "ReaderFaulty": False, "MaxRFaults": 0}
 
 
